@@ -64,7 +64,25 @@ def _ref_node(kind, X, y, w, idx):
     return mean, float((res ** 2).sum() / m)
 
 
+def _expand_long(case):
+    """long node ranges (hundreds of rows): the values are a deterministic function of the drawn `long` parameters"""
+    g = case["long"]
+    rs = np.random.RandomState(g["seed"])
+    n = g["n"]
+    y = rs.randint(-64, 65, size=n) / 8.0
+    if case["kind"] == "linear":
+        w = np.ones(n)
+        X = (rs.permutation(4 * n)[:n] / 4.0).reshape(n, 1)          # distinct abscissas
+    else:
+        w = np.ones(n) if g["unit"] else rs.randint(1, 33, size=n) / 8.0
+        X = np.zeros((n, 1))
+    order = np.arange(n) if g["identity"] else rs.permutation(n)
+    return dict(case, y=y.tolist(), w=w.tolist(), X=X.tolist(), order=order.tolist())
+
+
 def check_criteria(case):
+    if "long" in case:
+        case = _expand_long(case)
     kind = case["kind"]
     y = np.array(case["y"], dtype=np.float64)
     n = len(y)
@@ -81,7 +99,7 @@ def check_criteria(case):
     crit = _make(kind, n, X)
     skipped = 0
     ntriples = 0
-    ranges = [(s, e) for s in range(n) for e in range(s + 1, n + 1)]
+    ranges = [(s, e) for s in range(n) for e in range(s + 1, n + 1)] if "ranges" not in case else [tuple(r) for r in case["ranges"]]
     prev_range = None
     for (start, end) in ranges:
         T._test_criterion_init(crit, ys, w, Wtot, samples, start, end)
@@ -96,7 +114,7 @@ def check_criteria(case):
         else:
             require(abs(got_imp - imp) <= tol, "node_impurity", "range [%d,%d): %r, reference %r" % (start, end, got_imp, imp), f2)
         Wnode = float(w[idx].sum())
-        for pos in range(start, end + 1):
+        for pos in (range(start, end + 1) if "positions" not in case else sorted(set(start + p % (end - start + 1) for p in case["positions"]))):
             ntriples += 1
             # builder protocol: a different candidate is evaluated last, then the chosen split
             other = start + ((pos - start + 1 + case["skew"]) % (end - start + 1))
@@ -140,7 +158,7 @@ def check_criteria(case):
             dict(facts, start=s, end=e))
     ident = list(case["order"]) == list(range(n))
     return Outcome([kind, "identity-order" if ident else "permuted", "candidates" if case["candidates"] else "direct",
-                    "n=1" if n == 1 else ("n<=4" if n <= 4 else "n>4"), "cond-skipped" if skipped else "all-compared",
+                    "n=1" if n == 1 else ("n<=4" if n <= 4 else ("n>4" if n <= 128 else "n>128")), "cond-skipped" if skipped else "all-compared",
                     "unit-weights" if bool(np.all(w == 1)) else "weights", "wscale=%g" % case.get("wscale", 1.0)], n >= 2)
 
 
@@ -179,6 +197,22 @@ def _crit_cases(draw, tier="quick"):
         order = list(range(n))
     return dict(kind=kind, y=y, w=w, X=X, order=order, candidates=draw(st.booleans()), skew=draw(st.integers(0, 3)),
                 reinit=[draw(st.integers(0, n - 1)), draw(st.integers(1, n))], wscale=draw(st.sampled_from([1.0, 1.0, 1e-13, 1e-6, 1e6])))
+
+
+@st.composite
+def _long_crit_cases(draw, tier="quick"):
+    n = draw(st.sampled_from([129, 130, 200, 257, 258, 300, 513, 700]))
+    ranges = []
+    for _ in range(4):
+        a, b = draw(st.integers(0, n - 1)), draw(st.integers(1, n))
+        s_, e_ = min(a, b - 1), max(a + 1, b)
+        ranges.append([s_, e_])
+    ranges.append([0, n])
+    ranges.append([draw(st.integers(1, n - 129)) if n > 129 else 0, n])
+    return dict(kind=draw(st.sampled_from(["simple", "fast", "linear"])), long=dict(n=n, seed=draw(st.integers(0, 2**31 - 2)), unit=draw(st.booleans()), identity=draw(st.integers(0, 3)) == 0),
+                ranges=ranges, positions=[draw(st.integers(0, 2 * n)) for _ in range(4)] + [0, 1, 128, 129, 256, 257],
+                candidates=draw(st.booleans()), skew=draw(st.integers(0, 3)), reinit=[draw(st.integers(0, n - 1)), draw(st.integers(1, n))],
+                wscale=draw(st.sampled_from([1.0, 1.0, 1e-6, 1e6])))
 
 
 def _perm_cases(tier):
@@ -319,6 +353,8 @@ def _model_cases(draw, tier="quick"):
 CLAUSES = [
     Clause("criteria", check_criteria, strategy=lambda tier: _crit_cases(tier), quick=6000, thorough=100000, quick_shards=12,
            doc="node value / impurity / children impurities / improvement for every (start,pos,end) of each generated case, builder protocol"),
+    Clause("criteria-long", check_criteria, strategy=lambda tier: _long_crit_cases(tier), quick=600, thorough=12000, quick_shards=8,
+           doc="the same quantities on node ranges of 129-700 rows (a few ranges and split positions per case)"),
     Clause("criteria-perms", check_criteria, cases=_perm_cases, quick_shards=4, thorough_shards=16, exhaustive=True,
            doc="all sample orders for small n (3-4 quick, 1-5 thorough), all triples, with and without a preceding candidate"),
     Clause("model", check_model, strategy=lambda tier: _model_cases(tier), quick=2400, thorough=40000, quick_shards=8,
